@@ -23,7 +23,7 @@ func init() {
 		Assumptions: []string{"Of/OfMany compared only on ascending (merged) lists, sizes >= 0, positions >= 0 (Of's stated domain)", "Builder compared as a set; extra zero words are allowed",
 			"Get/Get1 probed only inside the bitmap"},
 		Flavours: releaseAnd386,
-		Required: []string{"arguments-in-read-only-memory", "of/empty-list", "of/n-absent", "of/n-absent-as-empty-non-nil-variadic", "of/n-negative", "of/n<last+1", "of/n>last+1", "of/last%64=63", "of/last%64=0", "probe/negative", "probe/beyond", "probe/maxint32", "probe/minint32",
+		Required: []string{"long-run/calls>=100000-per-function", "arguments-in-read-only-memory", "of/empty-list", "of/n-absent", "of/n-absent-as-empty-non-nil-variadic", "of/n-negative", "of/n<last+1", "of/n>last+1", "of/last%64=63", "of/last%64=0", "probe/negative", "probe/beyond", "probe/maxint32", "probe/minint32",
 			"ofmany/pos>=size", "ofmany/size=0", "ofmany/empty-sub", "ofmany/segments-carved-from-one-arena", "ofmany/shifted-list-not-ascending", "builder/extend-pos>=size", "builder/extend-size=0", "builder/extend-empty", "builder/set-0", "builder/set-1", "builder/presized", "builder/over-dirty-capacity", "roundtrip/trailing-zero-words", "probe/bitmap>=2^31-bits"},
 		Families: func(c *mon.Config) []mon.Family {
 			return []mon.Family{
@@ -39,6 +39,7 @@ func init() {
 				{Name: "builder", Env: 6, N: c.Pick(60000, 10000000), Run: c12Builder},
 				{Name: "big-lists", Env: 3, N: 7 * c.Pick(2, 60), Run: c12Big},
 				{Name: "huge-bitmap-probes", N: 1, Run: c12Huge},
+				lrFamily(c12LongRun),
 			}
 		},
 	})
